@@ -13,7 +13,11 @@ Judged (client-side transcript unless stated):
       an eval of a session that never received an interrupt must not be `interrupted` (no other session).
   (c) a `close` sent while a bounded long eval is known to be executing ends it `interrupted`; afterwards the
       session is unknown to eval / interrupt / close and absent from `ls-sessions`.
-Not judged: an interrupt sent after an eval was sent but before its first output (either outcome is allowed).
+  (d) event log, logical: a stop whose store falls after the worker's `flag_reset` point of the cycle handling
+      eval E and is complete before E's `eval.begin` (the worker is parsing / loading the request) must end E
+      `interrupted` (`interrupt-lost:pre-eval-window`); reached with large sources (thousands of definitions +
+      a bounded long loop) stopped without waiting for output, and delays on flag_reset / eval.begin.
+Not judged from the client side: an interrupt sent after an eval was sent but before its first output (either outcome is allowed).
 """
 import random
 
@@ -35,7 +39,7 @@ ASSUME = ["a 1 500 000-iteration loop cannot finish between the client's receipt
           "watchdogs (40 s; 120 s for a long eval) only ever yield `inconclusive`"]
 BATCH = 1
 FLOOR = {"quick": 25, "thorough": 150}
-BUDGET = {"quick": 40, "thorough": 780}
+BUDGET = {"quick": 36, "thorough": 780}
 
 
 def gen_cases(tier, seed):
